@@ -16,7 +16,8 @@ Next ==
                LET r == Recipe(la, s, 1, "") IN DoAll(r.ops \o <<Op("RoundTrip", r.h, <<f>>)>>)
          \/ /\ WithMasks /\ Prod(s) <= 6
             /\ \E m \in [1..Prod(s) -> {0, 1}] :
-                 DoAll(<<Op("NewMasked", 0, <<s, m>>), Op("RoundTrip", 1, <<f>>)>>)
+                 \/ DoAll(<<Op("NewMasked", 0, <<s, m>>), Op("RoundTrip", 1, <<f>>)>>)
+                 \/ Len(s) >= 2 /\ "F" \in Lays /\ DoAll(<<Op("NewMaskedF", 0, <<s, m>>), Op("RoundTrip", 1, <<f>>)>>)   \* masked and column-major
 
 Spec == Init /\ [][Next]_vars
 CaseRec == [fam |-> "io", steps |-> steps, live |-> live, heap |-> heap, allocs |-> allocs]
